@@ -90,6 +90,12 @@ impl Scenario for C10S {
                 _ => recv.push(json!(["sleep", *r.pick(&gaps)])),
             }
         }
+        if r.chance(1, 4) {
+            // a slow or descheduled thread: the clock jumps forward at a scheduling step, e.g. while
+            // a sender is between two packets or a receiver between poll and recvmsg
+            let f: Vec<Value> = (0..r.range(1, 2)).map(|_| json!({"k": "timejump", "step": r.range(2, 120), "ns": *r.pick(&[400_000u64, 1_000_000, 3_000_000, 1_000_000_000])})).collect();
+            sim["faults"] = json!(f);
+        }
         json!({"sim": sim, "senders": senders, "recv": recv})
     }
     fn run(&self, p: &Value) -> Outcome {
@@ -189,6 +195,8 @@ impl Scenario for C10S {
         let mut cur: Option<(i64, i64, i64, u64, u64)> = None; // ci, kind, d_us, seq, vns
         let mut judged = 0u64;
         let mut judged_alive = 0u64;
+        // with injected clock jumps, elapsed virtual time says nothing about blocking
+        let jumped = sim::g().stats.f_timejump > 0;
         for e in evs {
             if e.op == "call.inv" {
                 cur = Some((e.a, e.b, e.c, e.seq, e.vns));
@@ -224,7 +232,7 @@ impl Scenario for C10S {
                                 out.viol(&format!("order:{}", kname), format!("call {} returned {:?} before an earlier message of the same sender", ci, key));
                             }
                             // no waiting once the message is there
-                            if kind != 0 {
+                            if kind != 0 && !jumped {
                                 let avail_vns = s.ret.map(|r| r.1).unwrap_or(u64::MAX).max(inv_vns);
                                 if e.vns > avail_vns {
                                     out.viol(&format!("late-return:{}", kname), format!("call {} ({} d={}us) returned message {:?} at t={}ns although it was completely sent by t={}ns", ci, kname, d_us, key, e.vns, avail_vns));
@@ -244,7 +252,7 @@ impl Scenario for C10S {
                     if all_dropped_before(inv) && !sends.iter().any(|s| s.ok && !delivered.contains(&(s.s, s.q))) {
                         out.viol(&format!("empty-when-disconnected:{}", kname), format!("call {} ({}) reported empty although every sender had been dropped before the call and nothing was pending", ci, kname));
                     }
-                    if kind == 1 && elapsed != 0 {
+                    if kind == 1 && elapsed != 0 && !jumped {
                         out.viol("blocked:try_recv", format!("try_recv (call {}) took {} ns of virtual time to report empty", ci, elapsed));
                     }
                     if kind == 2 {
@@ -269,10 +277,10 @@ impl Scenario for C10S {
                     if let Some(s) = sends.iter().find(|s| s.ok && !delivered.contains(&(s.s, s.q))) {
                         out.viol(&format!("disconnect-before-delivery:{}", kname), format!("call {} ({}) reported disconnected before delivering message ({},{})", ci, kname, s.s, s.q));
                     }
-                    if kind != 0 && e.vns > last_drop_vns.max(inv_vns) {
+                    if kind != 0 && !jumped && e.vns > last_drop_vns.max(inv_vns) {
                         out.viol(&format!("late-return:{}", kname), format!("call {} ({} d={}us) reported disconnected at t={} although the last sender was gone at t={}", ci, kname, d_us, e.vns, last_drop_vns));
                     }
-                    if kind == 1 && elapsed != 0 {
+                    if kind == 1 && elapsed != 0 && !jumped {
                         out.viol("blocked:try_recv", format!("try_recv (call {}) took {} ns of virtual time", ci, elapsed));
                     }
                 },
@@ -282,7 +290,7 @@ impl Scenario for C10S {
                 "call.bad" => out.viol(&format!("torn:{}", kname), format!("call {}: {}", ci, e.s)),
                 _ => {},
             }
-            if e.op == "call.msg" && kind == 1 && elapsed != 0 {
+            if e.op == "call.msg" && kind == 1 && elapsed != 0 && !jumped {
                 out.viol("blocked:try_recv", format!("try_recv (call {}) took {} ns of virtual time to return a message", ci, elapsed));
             }
             cur = None;
